@@ -517,6 +517,11 @@ func (em *emitter) emitAssignmentNode(node *ast.Assignment) {
 		return
 	}
 
+	// The statement does not declare variables, so the registers that it
+	// allocates are temporaries that can be reused after it.
+	em.fb.enterStack()
+	defer em.fb.exitStack()
+
 	// The arrays and the structs held by a non-local variable are copied when
 	// the variable is read, so an element or a field to assign, at any depth,
 	// is reached through a pointer to the variable, bound to its identifier as
